@@ -76,4 +76,14 @@ ev C11 5 internal/rsm/zz_demo_test.go ./internal/rsm -- C11 C08
 ev C11 6 zz_demo_test.go . -- C11
 ev C20 5 tools/zz_demo_test.go ./tools -- C20
 }
+laneH() {
+ev C15 6 internal/transport/zz_demo_send_test.go ./internal/transport -- C15
+ev C17 6 zz_demo_test.go . -- C17
+ev C19 5 internal/raft/zz_demo_test.go ./internal/raft -- C19
+}
+laneI() {
+ev C19 6 internal/logdb/zz_demo_test.go ./internal/logdb -- C19
+ev C11 6 zz_demo_test.go . -- C11
+ev C13 5 internal/transport/zz_demo_test.go ./internal/transport -- C15 C13
+}
 "$@"
